@@ -30,10 +30,14 @@ var uuidRE = regexp.MustCompile(`[0-9a-f]{8}-[0-9a-f]{4}-[0-9a-f]{4}-[0-9a-f]{4}
 type simLogger struct {
 	c  *simrt.Ctx
 	id string
+	nd *simNode
 }
 
 func (l *simLogger) Printf(format string, v ...interface{}) {
 	msg := fmt.Sprintf(format, v...)
+	if l.nd != nil && strings.HasPrefix(msg, "change cluster state from") {
+		l.nd.stateSeq++
+	}
 	msg = uuidRE.ReplaceAllString(msg, "UUID") // the cluster id comes from crypto/rand
 	if i := strings.Index(msg, "0x"); i >= 0 {
 		msg = msg[:i] + "0x?"
@@ -74,6 +78,7 @@ type simNode struct {
 	opened   bool
 	opening  bool // an asynchronous Open is in flight
 	released bool
+	stateSeq int  // number of cluster state changes this node has logged
 	gone     bool // removed from the cluster by a completed resize
 	ser      pilosa.Serializer
 }
@@ -157,7 +162,7 @@ func (nd *simNode) build() error {
 		pilosa.OptServerAntiEntropyInterval(cl.aeInterval),
 		pilosa.OptServerDiagnosticsInterval(0),
 		pilosa.OptServerMetricInterval(0),
-		pilosa.OptServerLogger(&simLogger{c: cl.c, id: nd.id}),
+		pilosa.OptServerLogger(&simLogger{c: cl.c, id: nd.id, nd: nd}),
 	}
 	if cl.poolSize > 0 {
 		opts = append(opts, pilosa.OptServerExecutorPoolSize(cl.poolSize))
